@@ -184,7 +184,7 @@ func cmdCheckC19(tier string, seed uint64, runs int) int {
 	var samples []any
 	nviol := 0
 	knownSeen := map[string]int{}
-	_ = os.MkdirAll(filepath.Join(verifDir, "replays"), 0o755)
+	_ = os.MkdirAll(replaysDir(), 0o755)
 	for _, r := range results {
 		evals += r.sum.Cases
 		distinct += r.sum.Distinct
@@ -207,7 +207,7 @@ func cmdCheckC19(tier string, seed uint64, runs int) int {
 			}
 			nviol++
 			v["property"] = "C19"
-			path := filepath.Join(verifDir, "replays", fmt.Sprintf("C19-%v-%d-%v.json", v["adapter"], seed, v["case"]))
+			path := filepath.Join(replaysDir(), fmt.Sprintf("C19-%v-%d-%v.json", v["adapter"], seed, v["case"]))
 			js, _ := json.MarshalIndent(v, "", " ")
 			_ = os.WriteFile(path, js, 0o644)
 			fmt.Printf("violation: %v %v: %v\n", v["invariant"], v["entry_point"], v["message"])
